@@ -12,7 +12,11 @@ import time
 
 from .core import REPO, VERIF, MachineryError
 
-TARGET = os.path.join(VERIF, "out", "cargo-target")
+import hashlib
+# a scratch worktree (VERIF_REPO=/tmp/wt-x) gets its own target directory, so that concurrent
+# experiments never swap artefacts under the registered checks
+TARGET = (os.path.join(VERIF, "out", "cargo-target") if os.path.realpath(REPO) == "/repo"
+          else "/tmp/verif-cargo-" + hashlib.sha1(os.path.realpath(REPO).encode()).hexdigest()[:10])
 MODS = {"_pack": "libpack_py.so", "_objects": "libobjects_py.so", "_diff_tree": "libdiff_tree_py.so"}
 _built = False
 
